@@ -1501,3 +1501,42 @@ fn k_stroke_driver() {
     kani::cover!(dashed);
     kani::cover!(!dashed);
 }
+
+// ------------------------------------------------------------------ draw_image_* as callers of fill_rect (C13 #5, C14 #7)
+pub static mut FR: (usize, [u32; 4], u8, [u32; 6], (i32, i32, usize), bool, u32) = (0, [0; 4], 0, [0; 6], (0, 0, 0), false, 0);
+fn fill_rect_rec<Backing: AsRef<[u32]> + AsMut<[u32]>>(_dt: &mut DrawTarget<Backing>, x: f32, y: f32, width: f32, height: f32, src: &Source, options: &DrawOptions) {
+    unsafe {
+        FR.0 += 1;
+        FR.1 = [x.to_bits(), y.to_bits(), width.to_bits(), height.to_bits()];
+        if let Source::Image(img, ext, filt, xf) = src {
+            FR.2 = 1;
+            FR.3 = xf_bits(xf);
+            FR.4 = (img.width, img.height, img.data.as_ptr() as usize);
+            FR.5 = matches!(ext, ExtendMode::Pad) && *filt == FilterMode::Bilinear;
+        } else { FR.2 = 0; }
+        FR.6 = options.alpha.to_bits();
+    }
+}
+// @ob id=K.draw_image_at props=C13,C14,C02 kind=complete unwind_complete=yes tier=quick timeout=600 fns=DrawTarget::draw_image_at,DrawTarget::draw_image_with_size_at
+// @+ desc="draw_image_at(x,y,img) for every finite x,y: exactly one fill_rect(x, y, img.width, img.height) with the same image as a Pad source whose transform is exactly translate(-x,-y) (scale exactly 1), and the caller's options: texel (i,j) therefore lands on pixel (x+i, y+j) and the call equals filling that rectangle with the translated image source"
+#[kani::proof]
+#[kani::unwind(10)]
+#[kani::stub(DrawTarget::fill_rect, fill_rect_rec)]
+fn k_draw_image_at() {
+    let mut dt = DrawTarget::new(CW, CH);
+    let data = [0u32; 6];
+    let img = Image { width: 3, height: 2, data: &data };
+    let (x, y): (f32, f32) = (kani::any(), kani::any());
+    kani::assume(x.is_finite() && y.is_finite());
+    let alpha: f32 = kani::any();
+    unsafe { FR.0 = 0; }
+    dt.draw_image_at(x, y, &img, &DrawOptions { blend_mode: BlendMode::SrcOver, alpha, antialias: AntialiasMode::Gray });
+    let fr = unsafe { &FR };
+    assert!(fr.0 == 1, "one fill_rect");
+    assert!(fr.1[0] == x.to_bits() && fr.1[1] == y.to_bits() && fr.1[2] == 3f32.to_bits() && fr.1[3] == 2f32.to_bits(), "rectangle [x,x+w) x [y,y+h) with the image's size");
+    assert!(fr.2 == 1 && fr.4 == (3, 2, data.as_ptr() as usize) && fr.5, "the same image, Pad");
+    let t = fr.3;
+    assert!(f32::from_bits(t[0]) == 1. && f32::from_bits(t[1]) == 0. && f32::from_bits(t[2]) == 0. && f32::from_bits(t[3]) == 1. && f32::from_bits(t[4]) == -x && f32::from_bits(t[5]) == -y, "source transform = translate(-x,-y), scale exactly 1");
+    assert!(fr.6 == alpha.to_bits(), "caller's options");
+    kani::cover!(x == 1.5);
+}
